@@ -16,6 +16,7 @@ import (
 	"reflect"
 	"strconv"
 	"strings"
+	"unicode/utf16"
 	"unicode/utf8"
 
 	at "github.com/DanielSvub/anytype"
@@ -167,17 +168,18 @@ var utf8Atoms = [][]byte{
 	{0xF8, 0x88, 0x80, 0x80, 0x80}, {0xFE}, // five-byte form, FE
 	{0xC2}, {0xDF}, {0xEF, 0xBF}, {0xF4, 0x8F, 0xBF}, // truncated right below a boundary
 	{0xE1, 0x80, 0xC0}, {0xF1, 0x80, 0x80, 0x7F}, // bad continuation byte in the last position
+	{0x85}, {0xA0}, {0x93}, {0xAD}, {0xE9}, // single bytes that mean something in Latin-1 / Windows-1252 (NEL, NBSP, a quote, soft hyphen, é)
 }
 
 var utf8AtomNames = []string{"stray-80", "stray-BF", "trunc-2", "trunc-3", "trunc-4", "overlong-2", "overlong-3", "surrogate", "above-F4", "FF",
 	"beyond-10FFFF-F490", "beyond-10FFFF-F4BF", "overlong-C1", "overlong-E09F", "overlong-F08F", "surrogate-EDBFBF", "surrogate-low", "five-byte", "FE",
-	"trunc-C2", "trunc-DF", "trunc-EFBF", "trunc-F48FBF", "bad-cont-3", "bad-cont-4"}
+	"trunc-C2", "trunc-DF", "trunc-EFBF", "trunc-F48FBF", "bad-cont-3", "bad-cont-4", "latin1-NEL-85", "latin1-NBSP-A0", "cp1252-quote-93", "latin1-SHY-AD", "latin1-E9"}
 
-var placementNames = []string{"after-backslash", "inside-string-value", "inside-key", "inside-number-or-literal", "between-tokens"}
+var placementNames = []string{"after-backslash", "inside-string-value", "inside-key", "inside-number-or-literal", "between-tokens", "after-whitespace"}
 
 // placements lists, per syntactic class, the offsets (1..len-1) at which an atom can be inserted.
-func placements(b []byte) [5][]int {
-	var out [5][]int
+func placements(b []byte) [6][]int {
+	var out [6][]int
 	inStr, esc, isKey := false, false, false
 	depthKinds := []byte{}
 	expectKey := false
@@ -195,6 +197,9 @@ func placements(b []byte) [5][]int {
 				out[3] = append(out[3], k)
 			default:
 				out[4] = append(out[4], k)
+			}
+			if !inStr && (b[k-1] == ' ' || b[k-1] == '\t' || b[k-1] == '\n' || b[k-1] == '\r') {
+				out[5] = append(out[5], k)
 			}
 		}
 		if inStr {
@@ -315,6 +320,99 @@ func genDocument(s *simrt.Sim, objRoot bool) (any, string) {
 	return c, doc
 }
 
+// restyle renders a document the way other writers do: pretty-printed by the library itself, with white space between the
+// tokens, or with the string contents written in JSON's other spellings (\/ , \uXXXX, surrogate pairs — and, rarely, a lone
+// surrogate escape, which no writer should produce and a parser must still survive).
+func restyle(s *simrt.Sim, root any, doc string) (string, string) {
+	switch s.Draw("doc-style", 6) {
+	case 0:
+		indent := s.Draw("indent", 5)
+		out := doc
+		try(func() {
+			switch x := root.(type) {
+			case at.List:
+				out = x.FormatString(indent)
+			case at.Object:
+				out = x.FormatString(indent)
+			}
+		})
+		return "pretty", strings.TrimRight(out, " \t\r\n")
+	case 1:
+		// white space after structural characters outside strings
+		ws := []string{" ", "\t", "\n", "\r\n", "  ", " \n\t", "\n\n"}
+		var b strings.Builder
+		inStr, esc := false, false
+		for i := 0; i < len(doc); i++ {
+			c := doc[i]
+			b.WriteByte(c)
+			if inStr {
+				if esc {
+					esc = false
+				} else if c == '\\' {
+					esc = true
+				} else if c == '"' {
+					inStr = false
+				}
+				if inStr {
+					continue
+				}
+			} else if c == '"' {
+				inStr = true
+				continue
+			}
+			if (c == ',' || c == ':' || c == '[' || c == '{' || c == '"' || c == ']' || c == '}' || (c >= '0' && c <= '9' && i+1 < len(doc) && (doc[i+1] == ',' || doc[i+1] == ']' || doc[i+1] == '}'))) && s.Draw("ws", 3) == 0 {
+				b.WriteString(ws[s.Draw("ws-kind", len(ws))])
+			}
+		}
+		// (nothing after the root's closing bracket: "between its root brackets" is what the checks below rely on)
+		return "spaced", strings.TrimRight(b.String(), " \t\r\n")
+	case 2:
+		// other spellings of the string contents
+		var b strings.Builder
+		inStr, esc := false, false
+		lone := s.Draw("lone-surrogate", 4) == 0
+		for i := 0; i < len(doc); {
+			r, n := utf8.DecodeRuneInString(doc[i:])
+			c := doc[i]
+			switch {
+			case !inStr:
+				b.WriteString(doc[i : i+n])
+				if c == '"' {
+					inStr = true
+				}
+			case esc:
+				b.WriteString(doc[i : i+n])
+				esc = false
+			case c == '\\':
+				b.WriteByte(c)
+				esc = true
+			case c == '"':
+				if lone && s.Draw("lone-here", 3) == 0 {
+					b.WriteString([]string{"\\uD83D", "\\uDE00", "\\ud800", "\\uDBFF\\u0041"}[s.Draw("lone-kind", 4)])
+				}
+				b.WriteByte(c)
+				inStr = false
+			case c == '/' && s.Draw("esc-slash", 2) == 0:
+				b.WriteString("\\/")
+			case r >= 0x10000 && n == 4 && s.Draw("esc-astral", 2) == 0:
+				r1, r2 := utf16.EncodeRune(r)
+				fmt.Fprintf(&b, "\\u%04X\\u%04x", r1, r2)
+			case (r >= 0x80 && r != utf8.RuneError && s.Draw("esc-bmp", 2) == 0) || (r >= 'a' && r <= 'f' && s.Draw("esc-ascii", 8) == 0):
+				if r < 0x10000 {
+					fmt.Fprintf(&b, "\\u%04x", r)
+				} else {
+					b.WriteString(doc[i : i+n])
+				}
+			default:
+				b.WriteString(doc[i : i+n])
+			}
+			i += n
+		}
+		return "escaped", b.String()
+	}
+	return "compact", doc
+}
+
 func runDisk(ch *simrt.Chooser, opt Options) RunResult {
 	res := RunResult{Counters: map[string]int{}}
 	disk := simrt.NewDisk(simMount)
@@ -341,7 +439,13 @@ func runDisk(ch *simrt.Chooser, opt Options) RunResult {
 			fault = diskFaults[opt.Scenario%len(diskFaults)]
 		}
 		d.where = fault
-		_, doc := genDocument(s, objRoot)
+		root, doc := genDocument(s, objRoot)
+		// the same document as another writer would have stored it (the classes that speak about String() output keep the compact text)
+		style := "compact"
+		if fault != "torn" && fault != "many-values" && len(doc) < 200000 {
+			style, doc = restyle(s, root, doc)
+		}
+		res.Counters["disk:style-"+style]++
 		diskName := "simulated"
 		if d.real {
 			diskName = "real"
@@ -751,7 +855,7 @@ func runDisk(ch *simrt.Chooser, opt Options) RunResult {
 			a := s.Draw("atom", len(utf8Atoms))
 			pos := 1 + s.Draw("utf8-pos", len(b)-1) // strictly between the root brackets: 1 .. len-1
 			// placement classes: half of the runs aim at a position of a drawn syntactic class
-			if cls := s.Draw("utf8-class", 10); cls < 5 {
+			if cls := s.Draw("utf8-class", 12); cls < 6 {
 				cands := placements(b)[cls]
 				if len(cands) > 0 {
 					pos = cands[s.Draw("utf8-class-pos", len(cands))]
